@@ -163,16 +163,20 @@ def detectRemovals (runners : List Runner) (known : List (Nat × Rat × Option R
       else (acc.1 ++ [(r.sel, r.hc, r.af)], acc.2 ++ [(r.sel, r.hc, r.af)])
     else acc) (known, [])
 
-/-- `SimulatedMiddleware.__call__(market)` -/
-def simulatedMiddleware (w : World) (mid : Nat) : World :=
+/-- first half of `SimulatedMiddleware.__call__`: analytics for the ACTIVE runners and detection of new
+    removals against the market's own list; returns the newly detected removals -/
+def mwUpdateAnalytics (w : World) (mid : Nat) : World × List (Nat × Rat × Option Rat) :=
   let m := w.market! mid
   let book := m.book.getD {}
-  -- analytics for ACTIVE runners; detection of new removals against the market's own list
   let as := book.runners.foldl (fun as r => if r.status = .active then processRunner as r else as) m.analytics
-  let (removals, newRemovals) := detectRemovals book.runners m.removals
-  let w := { w with removals := w.removals ++ newRemovals }
-  let w := w.modifyMarket mid fun m => { m with analytics := as, hasAnalytics := true, removals := removals }
-  let w := newRemovals.foldl (fun w k => w.processRunnerRemoval mid k.1 k.2.1 k.2.2) w
+  let dr := detectRemovals book.runners m.removals
+  let w := { w with removals := w.removals ++ dr.2 }
+  (w.modifyMarket mid fun m => { m with analytics := as, hasAnalytics := true, removals := dr.1 }, dr.2)
+
+/-- `SimulatedMiddleware.__call__(market)` -/
+def simulatedMiddleware (w : World) (mid : Nat) : World :=
+  let p := w.mwUpdateAnalytics mid
+  let w := p.2.foldl (fun w k => w.processRunnerRemoval mid k.1 k.2.1 k.2.2) p.1
   if (w.market! mid).active then w.mwProcessSimulatedOrders mid else w
 
 end World
